@@ -137,14 +137,13 @@ Lemma outcome_inv_padding s s' : inject_byte_padding_block s = Done s' ->
   /\ oracle s' = oracle s /\ last_bytes_bits s' = 0.
 Proof.
   unfold inject_byte_padding_block, write_at_cursor. intros H.
-  cbn [next_out upd_bits] in H.
-  destruct (next_out s) eqn:En; cbn [next_out upd_bits upd_out] in H; try rewrite En in H.
+  cbn [avail_out_ upd_bits] in H.
+  destruct (avail_out_ s =? 0); cbn [next_out upd_bits upd_out] in H.
   - match type of H with context [if ?c then _ else _] => destruct c end; try discriminate.
     inversion H; subst s'; clear H. cbn. repeat split; reflexivity.
-  - match type of H with context [if ?c then _ else _] => destruct c end; try discriminate.
-    inversion H; subst s'; clear H. cbn. repeat split; reflexivity.
-  - match type of H with context [if ?c then _ else _] => destruct c end; try discriminate.
-    inversion H; subst s'; clear H. cbn. repeat split; reflexivity.
+  - destruct (next_out s) eqn:En; cbn [next_out upd_bits upd_out] in H; try rewrite En in H;
+      match type of H with context [if ?c then _ else _] => destruct c end; try discriminate;
+      inversion H; subst s'; clear H; cbn; repeat split; reflexivity.
 Qed.
 
 Lemma inject_some s x s' x' : inject_flush_or_push_output s x = Done (Some (s', x')) ->
@@ -427,10 +426,13 @@ Definition acct (T0 : N) (s : st) (x : io) : Prop :=
 Lemma acct_padding T0 s s' x : acct T0 s x -> inject_byte_padding_block s = Done s' -> acct T0 s' x.
 Proof.
   unfold acct, inject_byte_padding_block, write_at_cursor. intros [A B] H.
-  cbn [next_out upd_bits] in H.
-  destruct (next_out s) eqn:En; cbn [next_out upd_bits upd_out] in H; try rewrite En in H;
-    match type of H with context [if ?c then _ else _] => destruct c end; try discriminate;
-    inversion H; subst s'; clear H; cbn; split; assumption.
+  cbn [avail_out_ upd_bits] in H.
+  destruct (avail_out_ s =? 0); cbn [next_out upd_bits upd_out] in H.
+  - match type of H with context [if ?c then _ else _] => destruct c end; try discriminate.
+    inversion H; subst s'; clear H. cbn. split; assumption.
+  - destruct (next_out s) eqn:En; cbn [next_out upd_bits upd_out] in H; try rewrite En in H;
+      match type of H with context [if ?c then _ else _] => destruct c end; try discriminate;
+      inversion H; subst s'; clear H; cbn; split; assumption.
 Qed.
 
 Lemma acct_inject T0 s x s' x' : acct T0 s x ->
@@ -714,4 +716,159 @@ Proof.
     + assert (Hw : w32 (off + k) = off + k).
       { apply N.mod_small. specialize (Hno off (or_intror eq_refl)). lia. }
       rewrite Hw. symmetry. apply skipN_skipN.
+Qed.
+
+(* ====================================================================================== *)
+(* C20 progress: a stream call that returns true either used up the output space it was     *)
+(* given or completed the request (all offered input consumed, nothing pending).            *)
+(* ====================================================================================== *)
+Definition guard_inv (s : st) (x : io) : Prop := sstate_ s <> SProcessing -> avail_in x = 0.
+
+Lemma stream_loop_exit : forall fuel op s x s' x',
+  guard_inv s x ->
+  stream_loop fuel op s x = Done (true, s', x') ->
+  cap x' = 0 \/ (avail_in x' = 0 /\ avail_out_ s' = 0).
+Proof.
+  induction fuel as [|f IH]; intros op s x s' x' Hg Hrun; [discriminate|].
+  cbn [stream_loop] in Hrun.
+  destruct (negb (remaining_input_block_size s =? 0) && negb (avail_in x =? 0)) eqn:Ccopy.
+  - apply (IH _ _ _ _ _) in Hrun; [exact Hrun|].
+    intros Hs. cbn in Hs. specialize (Hg Hs).
+    apply andb_true_iff in Ccopy. destruct Ccopy as [_ C]. apply negb_true_iff in C. apply N.eqb_neq in C. contradiction.
+  - destruct (inject_flush_or_push_output s x) as [[[s1 x1]|]| | |] eqn:Einj; try discriminate.
+    + destruct (inject_some s x s1 x1 Einj) as [A [_ [_ [_ [E _]]]]].
+      apply (IH _ _ _ _ _) in Hrun; [exact Hrun|]. intros Hs. rewrite A in Hs. rewrite E. exact (Hg Hs).
+    + destruct ((avail_out_ s =? 0) && sstate_eqb (sstate_ s) SProcessing
+                && ((remaining_input_block_size s =? 0) || negb (opk_eqb op OpProcess))) eqn:Cenc.
+      * destruct (encode_data _ _ _) as [[[|] s2]| | |] eqn:Eenc; try discriminate.
+        destruct (encode_data_true _ _ _ _ Eenc) as [a [rest [_ [_ [_ [_ [_ [_ [O7 _]]]]]]]]].
+        destruct (update_size_hint_fields s (avail_in x)) as [U1 _].
+        apply (IH _ _ _ _ _) in Hrun; [exact Hrun|].
+        intros Hs.
+        destruct ((avail_in x =? 0) && opk_eqb op OpFlush) eqn:Cf; destruct ((avail_in x =? 0) && opk_eqb op OpFinish) eqn:Cl;
+          try (apply andb_true_iff in Cf; destruct Cf as [Cf _]; apply N.eqb_eq; exact Cf);
+          try (apply andb_true_iff in Cl; destruct Cl as [Cl _]; apply N.eqb_eq; exact Cl).
+        cbn in Hs. rewrite O7, U1 in Hs. exact (Hg Hs).
+      * inversion Hrun; subst s' x'; clear Hrun.
+        destruct (N.eq_dec (cap x) 0) as [Hc|Hc]; [left; exact Hc|right].
+        (* nothing pending: otherwise it would have been pushed *)
+        assert (Hao : avail_out_ s = 0).
+        { unfold inject_flush_or_push_output in Einj.
+          destruct (sstate_eqb (sstate_ s) SFlushRequested && negb (last_bytes_bits s =? 0)).
+          - destruct (inject_byte_padding_block s); discriminate.
+          - destruct (N.eqb_spec (avail_out_ s) 0) as [E|E]; [exact E|].
+            destruct (N.eqb_spec (cap x) 0) as [E'|E']; [contradiction|]. cbn [negb andb] in Einj.
+            destruct (lenN (view s) <? N.min (avail_out_ s) (cap x)); discriminate. }
+        assert (Hai : avail_in x = 0).
+        { destruct (N.eq_dec (avail_in x) 0) as [E|E]; [exact E|exfalso].
+          assert (Hp : sstate_ s = SProcessing).
+          { destruct (sstate_eqb (sstate_ s) SProcessing) eqn:Es; [apply sstate_eqb_spec; exact Es|].
+            exfalso. apply E. apply Hg. intros C. rewrite C in Es. discriminate. }
+          apply N.eqb_neq in E. rewrite E in Ccopy. rewrite andb_true_r in Ccopy. apply negb_false_iff in Ccopy.
+          rewrite Hao, Hp, Ccopy in Cenc. cbn in Cenc. discriminate. }
+        split; [exact Hai|].
+        unfold check_flush_complete. destruct (sstate_eqb (sstate_ s) SFlushRequested && (avail_out_ s =? 0)); cbn; exact Hao.
+Qed.
+
+Lemma fast_loop_exit : forall fuel op s x s' x',
+  guard_inv s x ->
+  fast_loop fuel op s x = Done (true, s', x') ->
+  cap x' = 0 \/ (avail_in x' = 0 /\ avail_out_ s' = 0).
+Proof.
+  induction fuel as [|f IH]; intros op s x s' x' Hg Hrun; [discriminate|].
+  cbn [fast_loop] in Hrun.
+  destruct (inject_flush_or_push_output s x) as [[[s1 x1]|]| | |] eqn:Einj; try discriminate.
+  - destruct (inject_some s x s1 x1 Einj) as [A [_ [_ [_ [E _]]]]].
+    apply (IH _ _ _ _ _) in Hrun; [exact Hrun|]. intros Hs. rewrite A in Hs. rewrite E. exact (Hg Hs).
+  - destruct ((avail_out_ s =? 0) && sstate_eqb (sstate_ s) SProcessing
+              && (negb (avail_in x =? 0) || negb (opk_eqb op OpProcess))) eqn:Cenc.
+    + remember (N.min (2 ^ Z.to_N (lgwin s)) (avail_in x)) as block eqn:Eblk.
+      destruct (((avail_in x =? block) && opk_eqb op OpFlush) && (block =? 0)) eqn:C0.
+      * apply (IH _ _ _ _ _) in Hrun; [exact Hrun|]. intros _.
+        apply andb_true_iff in C0. destruct C0 as [C1 C2]. apply andb_true_iff in C1. destruct C1 as [C1 _].
+        apply N.eqb_eq in C1, C2. congruence.
+      * destruct (fast_answer _ _ _ _ _) as [[a s1]| | |] eqn:Efa; try discriminate.
+        destruct (fast_answer_ok _ _ _ _ _ _ _ Efa) as [rest [_ [_ [O3 _]]]].
+        assert (Hnext : forall sx xx, (sstate_ sx <> SProcessing ->
+                          ((avail_in x =? block) && opk_eqb op OpFlush = true \/ (avail_in x =? block) && opk_eqb op OpFinish = true)) ->
+                          avail_in xx = avail_in x - block -> guard_inv sx xx).
+        { intros sx xx Hs Ha Hns. rewrite Ha. destruct (Hs Hns) as [H|H]; apply andb_true_iff in H; destruct H as [H _];
+            apply N.eqb_eq in H; lia. }
+        assert (Hproc : sstate_ s = SProcessing).
+        { apply andb_true_iff in Cenc. destruct Cenc as [Cenc _]. apply andb_true_iff in Cenc.
+          destruct Cenc as [_ Cs]. apply sstate_eqb_spec; exact Cs. }
+        destruct (2 * block + 503 <=? cap x);
+        destruct ((avail_in x =? block) && opk_eqb op OpFlush) eqn:Cf;
+        destruct ((avail_in x =? block) && opk_eqb op OpFinish) eqn:Cl;
+        (apply (IH _ _ _ _ _) in Hrun; [exact Hrun|]; apply Hnext; [|reflexivity]; cbn; intros Hs;
+         first [left; reflexivity | right; reflexivity | (exfalso; apply Hs; cbn; rewrite ?O3; exact Hproc)]).
+    + inversion Hrun; subst s' x'; clear Hrun.
+      destruct (N.eq_dec (cap x) 0) as [Hc|Hc]; [left; exact Hc|right].
+      assert (Hao : avail_out_ s = 0).
+      { unfold inject_flush_or_push_output in Einj.
+        destruct (sstate_eqb (sstate_ s) SFlushRequested && negb (last_bytes_bits s =? 0)).
+        - destruct (inject_byte_padding_block s); discriminate.
+        - destruct (N.eqb_spec (avail_out_ s) 0) as [E|E]; [exact E|].
+          destruct (N.eqb_spec (cap x) 0) as [E'|E']; [contradiction|]. cbn [negb andb] in Einj.
+          destruct (lenN (view s) <? N.min (avail_out_ s) (cap x)); discriminate. }
+      assert (Hai : avail_in x = 0).
+      { destruct (N.eq_dec (avail_in x) 0) as [E|E]; [exact E|exfalso].
+        assert (Hp : sstate_ s = SProcessing).
+        { destruct (sstate_eqb (sstate_ s) SProcessing) eqn:Es; [apply sstate_eqb_spec; exact Es|].
+          exfalso. apply E. apply Hg. intros C. rewrite C in Es. discriminate. }
+        apply N.eqb_neq in E. rewrite Hao, Hp, E in Cenc. cbn in Cenc. discriminate. }
+      split; [exact Hai|].
+      unfold check_flush_complete. destruct (sstate_eqb (sstate_ s) SFlushRequested && (avail_out_ s =? 0)); cbn; exact Hao.
+Qed.
+
+Theorem call_progress s0 op payload offered capn s' x' :
+  op <> OpMeta -> all_ok (oracle s0) -> 1 <= capn ->
+  compress_stream s0 op payload offered capn = Done (true, s', x') ->
+  (* the call filled the output buffer it was given ... *)
+  (lenN (produced x') = capn) \/
+  (* ... or the request is complete *)
+  (in_off x' = offered /\ avail_out_ s' = 0).
+Proof.
+  intros Hop Hok Hcap Hrun.
+  destruct (stream_call_cursors s0 op payload offered capn true s' x' Hop Hok Hrun) as [K1 K2].
+  unfold compress_stream, compress_stream_from in Hrun.
+  set (s := ensure_initialized s0) in *.
+  set (x0 := {| avail_in := offered; in_off := 0; cap := capn; produced := []; total_arg := 0 |}) in *.
+  match type of Hrun with (if ?c then _ else _) = _ => destruct c end; [discriminate|].
+  assert (Eop : opk_eqb op OpMeta = false) by (destruct op; try reflexivity; contradiction Hop; reflexivity).
+  rewrite Eop in Hrun.
+  match type of Hrun with (if ?c then _ else _) = _ => destruct c end; [discriminate|].
+  destruct (negb (sstate_eqb (sstate_ s) SProcessing) && negb (offered =? 0)) eqn:Cg; [discriminate|].
+  assert (Hg : guard_inv s x0).
+  { intros Hs. cbn. destruct (sstate_eqb (sstate_ s) SProcessing) eqn:E.
+    - apply sstate_eqb_spec in E. contradiction.
+    - cbn in Cg. apply negb_false_iff in Cg. apply N.eqb_eq; exact Cg. }
+  assert (D : cap x' = 0 \/ (avail_in x' = 0 /\ avail_out_ s' = 0)).
+  { match type of Hrun with (if ?c then _ else _) = _ => destruct c end.
+    - eapply fast_loop_exit; eassumption.
+    - eapply stream_loop_exit; eassumption. }
+  destruct D as [D|[D1 D2]]; [left; lia|right; split; [lia|exact D2]].
+Qed.
+
+(* ====================================================================================== *)
+(* C20: the flush padding block cannot panic when nothing is pending (repaired code); as    *)
+(* found it did when a metadata block had left the cursor at the end of the tiny buffer.    *)
+(* ====================================================================================== *)
+Theorem padding_no_panic_when_drained s : avail_out_ s = 0 ->
+  exists s', inject_byte_padding_block s = Done s'.
+Proof.
+  intros H. unfold inject_byte_padding_block, write_at_cursor. cbn [avail_out_ upd_bits]. rewrite H.
+  cbn [N.eqb next_out upd_out upd_bits].
+  match goal with |- context [if ?c then _ else _] => destruct c eqn:E end.
+  - exfalso. revert E. unfold lenN. cbn [N.add]. 
+    destruct (8 <? last_bytes_bits s + 6); destruct (16 <? last_bytes_bits s + 6); cbn; intros; discriminate.
+  - eexists; reflexivity.
+Qed.
+
+Theorem padding_asfound_refuted :
+  exists s, avail_out_ s = 0 /\ inject_byte_padding_block_asfound s = Panic 3
+            /\ exists s', inject_byte_padding_block s = Done s'.
+Proof.
+  exists (upd_bits (upd_out (ensure_initialized init_st) (NoTiny 16) [] 0 (repeat 0 16) 0 0) 14 7).
+  split; [reflexivity|]. split; [vm_compute; reflexivity|]. eexists. vm_compute. reflexivity.
 Qed.
